@@ -1,7 +1,7 @@
 #!/bin/sh
 # usage: tools/seed_try.sh <worktree> <PROP> [extra check ids...] : save the seeded change, verify demo, run checks against it
 WT=$1; P=$2; shift 2
-D=/verif/seeded/$P; mkdir -p $D
+D=/verif/seeded/$P${SUFFIX:-}; mkdir -p $D
 git -C $WT diff > $D/patch.diff
 cp $WT/demo_$P.py $D/ 2>/dev/null; cp $WT/meta.json $D/meta.json 2>/dev/null
 echo "== demo with change:"; (cd $WT && PYTHONPATH=$WT timeout 300 /venv/bin/python demo_$P.py > /tmp/demo_with.txt 2>&1; echo "rc=$?"; tail -2 /tmp/demo_with.txt)
